@@ -127,13 +127,14 @@ macro_rules! enc_parse_alloc {
         }
     };
 }
-// @family prop=C02 tier=quick timeout=900 role=encoding-parse-alloc
+// NOT REGISTERED (measured on the patched tree: CBMC tool error / out of memory after 650-713 s; derive-generated binrw header reader + error drop glue)
+// family prop=C02 role=encoding-parse-alloc
 // @bounds EncodingFile::parse on 22 / 24 input bytes; espec_block_size concrete per harness (0xFFFFFFFF, 2), every other byte symbolic (page counts, sizes, espec bytes)
 // @encodes cascette_formats::encoding::file::EncodingFile::parse, cascette_formats::encoding::header::EncodingHeader::validate, cascette_formats::encoding::espec::ESpecTable::parse
 // @assumes std::fmt::format stubbed; allocator spy
-// @catches KF: `vec![0u8; espec_block_size]` (4 GiB from a 22-byte input) and `Vec::with_capacity(ckey_page_count)` (up to 128 GiB from a 24-byte input) sized from unchecked header fields
-// UNVERIFIED(not run to completion within the time budget): enc_parse_alloc!(c02_encoding_parse_alloc_espec, 22, 0xFFFF_FFFF, "KF:encoding_parse_espec_block allocation request out of proportion to input");
-// UNVERIFIED(not run to completion within the time budget): enc_parse_alloc!(c02_encoding_parse_alloc_pages, 24, 2, "KF:encoding_parse_page_count allocation request out of proportion to input");
+// @catches regression of patch encoding_parse: `vec![0u8; espec_block_size]` (4 GiB from a 22-byte input) and `Vec::with_capacity(ckey_page_count)` (up to 128 GiB from a 24-byte input) sized from unchecked header fields
+enc_parse_alloc!(c02_encoding_parse_alloc_espec, 22, 0xFFFF_FFFF, "EncodingFile::parse: ESpec block allocation out of proportion to input");
+enc_parse_alloc!(c02_encoding_parse_alloc_pages, 24, 2, "EncodingFile::parse: page index reservation out of proportion to input");
 // @end
 
 // ---- C08: header and page entries -------------------------------------------------------------------------------
